@@ -1,5 +1,5 @@
 """Property -> rules wiring.  Each function returns kwargs for Ctx.finish()."""
-from . import control, history, descent, warm, degenerate, feasible, plumb, matrix, storage, formulas, penalgebra, misc, extents, blockpen, cox, reweight, critical, kernels, pairing
+from . import control, history, descent, warm, degenerate, feasible, plumb, matrix, storage, formulas, penalgebra, misc, extents, blockpen, cox, reweight, critical, kernels, pairing, domain
 
 TB = ["CPython ast", "role seeds: positional parameters of BaseSolver._solve and the "
       "fixed slot-method names of the datafit/penalty interface"]
@@ -120,6 +120,7 @@ def c19(A, ctx, tier):
     kernels.r_fixpoint(A, ctx, dict(floor=5), rule="R-FIXPOINT-ZEROGROUP")
     pairing.r_pair_eq(A, ctx, dict(only="zero task", floor=2), rule="R-PAIR-ZEROTASK")
     blockpen.r_proxfoc_block(A, ctx, dict(floor=12), rule="R-PROX-ZEROWEIGHT-BLOCK", parts=("nonneg",))
+    domain.r_target_domain(A, ctx, dict(floor=2))
     ctx.assume("finiteness under overflow and rank-deficient non-zero designs are not decided")
     return dict(explanation="degenerate data: every division by a data-derived "
                 "magnitude in solver code is dominated by a non-zero fact; every loop is "
